@@ -477,6 +477,38 @@ fn kid_confusion(alg: Alg, fmt: Fmt, l: &mut Local) {
     }
 }
 
+/// A harness-signed token with a rich protected header: the resolver must receive exactly the header that
+/// jsonwebtoken itself decodes from the token (kid, typ, cty, jku, x5u, x5t, x5t#S256, x5c, jwk), because a
+/// resolver may select the key by any of them.
+fn header_passthrough(alg: Alg, fmt: Fmt, l: &mut Local) {
+    use std::sync::{Arc, Mutex};
+    let hdr = json!({"alg": alg.name(), "typ": "sd+jwt", "cty": "c", "kid": "key-1", "jku": "https://i.example/jwks", "x5u": "https://i.example/cert", "x5t": "dGh1bWI", "x5t#S256": "dGh1bWIyNTY", "x5c": ["Y2VydA=="],
+        "jwk": {"kty": "EC", "crv": "P-256", "x": "TCAER19Zvu3OHF4j4W4vfSVoHIP1ILilDls7vCeGemc", "y": "ZxjiWWbZMQGHVWKVQ4hbSIirsVfuecCE6t4jT9F2HZQ"}});
+    let payload = json!({"iss": gen::ISS, "exp": gen::EXP, "a": 1, "_sd_alg": "sha-256"});
+    let jwt = tokens::sign_json(&hdr, &payload, tokens::jw_alg(alg), &keys::issuer_enc(alg, 0));
+    let expected = jsonwebtoken::decode_header(&jwt).map(|h| format!("{h:?}")).unwrap_or_default();
+    let tok = Parts { jwt, disclosures: vec![], kb: None }.serialize(fmt);
+    let seen = Arc::new(Mutex::new(String::new()));
+    let s2 = seen.clone();
+    l.evals += 1;
+    let out = drive::verify_with(&tok, Box::new(move |_iss, h| {
+        *s2.lock().unwrap() = format!("{h:?}");
+        keys::issuer_dec(alg, 0)
+    }), None, None, fmt);
+    let case = json!({"kind": "c02_header", "alg": alg.name(), "fmt": fmt.name()});
+    let got = seen.lock().unwrap().clone();
+    if !out.is_ok() {
+        l.violation(Violation::new("verify", if out.is_panic() { "panic" } else { "err_where_ok_required" }, "c02_rich_header_control", "rich_header", out.describe(), case.clone()));
+    } else {
+        l.outcome("control_accepted");
+    }
+    if got != expected {
+        l.violation(Violation::new("verify", "wrong_resolver_call", "c02_resolver_header_argument", "rich_header", format!("resolver received {got}; the token's header is {expected}"), case));
+    } else {
+        l.nontrivial += 1;
+    }
+}
+
 fn control(b: &Base, l: &mut Local) {
     let pres = b.parts.serialize(b.cfg.fmt);
     for with in [true, false] {
@@ -525,6 +557,7 @@ pub fn run(rep: &Report) {
     par_for(rep, cfs.len(), |i, l| iss_confusion(cfs[i].0, cfs[i].1, l));
     par_for(rep, cfs.len(), |i, l| iss_pairs(cfs[i].0, cfs[i].1, l));
     par_for(rep, cfs.len(), |i, l| kid_confusion(cfs[i].0, cfs[i].1, l));
+    par_for(rep, cfs.len(), |i, l| header_passthrough(cfs[i].0, cfs[i].1, l));
     rep.scope_done(json!({"scope": "36 bases (3 algs x 2 formats x kb off/on x 3 credentials): controls, payload edits, mixes, signature truncations, alg rewrites (17 values x kept/empty/removed/HMAC-with-public-key/attacker key), 7 other keys, iss confusion", "evaluations": rep.evals()}));
     // character-level sweep: quick on 12 bases (one per alg x fmt x kb), thorough on all 36
     let chosen: Vec<&Base> = bs.iter().collect();
@@ -650,6 +683,11 @@ pub fn replay(case: &Value) -> Vec<Violation> {
                     control(b, &mut l);
                 }
             }
+        }
+        "c02_header" => {
+            let alg = Alg::from_name(case["alg"].as_str().unwrap());
+            let fmt = if case["fmt"] == "json" { Fmt::Json } else { Fmt::Compact };
+            header_passthrough(alg, fmt, &mut l);
         }
         "c02_kid" => {
             let alg = Alg::from_name(case["alg"].as_str().unwrap());
